@@ -3161,6 +3161,13 @@ class StridedInterval:
             # We cannot reverse a one-byte value
             return self
 
+        if self.is_integer and not self._reversed and not self.is_empty:
+            # Reversing an integer is exact: do it now. The delayed form computes on the un-reversed bytes, which is
+            # wrong for arithmetic, shifts and ordered comparisons (1 > Reverse(1) was True for 32-bit values)
+            si = self._reverse()
+            si._reversed = False
+            return si
+
         si = self.copy()
         si._reversed = not si._reversed
 
